@@ -80,7 +80,7 @@ def c05_metric(ctx, shape, method, l1, mob):
     rng = np.random.default_rng(ctx.rng.randrange(1 << 30))
     grid, h = grid_of(shape)
     thin = min(shape) == 1 or len(shape) == 1
-    known_cfg = thin and mob in ("SUBCELL_BASED", "FACE_BASED")
+    known_cfg = thin and mob in ("SUBCELL_BASED", "FACE_BASED") and method == "bregman"
     ctx.witness("subcell_or_face_mobility_on_thin_grid", False)
     m1, m2 = images(shape, h, rng, "dense")
     kw = dict(l1_mode=W.L1Mode[l1], mobility_mode=W.MobilityMode[mob], num_iter=60 if ctx.tier != "quick" else 25)
@@ -176,7 +176,7 @@ def _thin_cases(tier):
 def c05_thin(ctx, shape, method, mob):
     rng = np.random.default_rng(ctx.rng.randrange(1 << 30))
     grid, h = grid_of(shape)
-    known_cfg = mob in ("SUBCELL_BASED", "FACE_BASED")
+    known_cfg = mob in ("SUBCELL_BASED", "FACE_BASED") and method == "bregman"       # Newton handles the IndexError inside its iteration and still returns the unique-flux cost
     ctx.witness("subcell_or_face_mobility_on_thin_grid", False)
     m1, m2 = images(shape, h, rng, "dense")
     for l1 in L1_MODES:
